@@ -162,6 +162,33 @@ def rseqOp (args : List String) : String :=
     " ".intercalate ((receiveMany n { stored := none, items := items }).map showRecvClass)
   | _, _, _, _, _, _ => "bad-op"
 
+def showSOut : SOut → String
+  | .recv (some m) => "t:" ++ hexOut' m
+  | .recv none => "f"
+  | .err none => "e:none"
+  | .err (some c) => s!"e:{c}"
+  | .closed => "c"
+
+/-- `sseq`: a sequence of Receive / Err / Close on a `ServerStreamForClient` over a structured
+    response (`ops=` a word over r, e, c) -/
+def sseqOp (args : List String) : String :=
+  match kv' args "proto", (kv' args "max").bind String.toNat?, kv' args "ops",
+        (kv' args "hdr").bind parseHeader, (kv' args "body").bind parseBody, (kv' args "trl").bind parseHeader with
+  | some proto, some max, some ops, some hdr, some body, some trl =>
+    let p := parseProto' proto
+    let cfg : CCfg := { proto := p, kind := .server, accepts := ["gzip".toUTF8.toList, "rle".toUTF8.toList], pool := rleCompressor, max := max }
+    let encName := match p with
+      | .connect => Header.get hdr Gen.hdrConnectStreamEncoding
+      | _ => Header.get hdr Gen.hdrGrpcEncoding
+    let r : Resp := { status := 200, header := hdr, body := body, trailer := trl }
+    let items := toRItems decStatus (fun m => (rawCodec.unmarshal m).isNone) cfg (encodingPool cfg encName) r
+    let sops : Option (List SOp) := ops.toList.mapM fun ch =>
+      if ch == 'r' then some SOp.receive else if ch == 'e' then some SOp.err else if ch == 'c' then some SOp.close else none
+    match sops with
+    | some l => " ".intercalate ((srun (SState.start items) l).1.map showSOut)
+    | none => "bad-op"
+  | _, _, _, _, _, _ => "bad-op"
+
 /-! ### handler side: arbitrary requests -/
 
 def jsonTable (d : Bytes) : Bool := d == [123, 125]                          -- "{}"
